@@ -159,6 +159,20 @@ Theorem c06_residual_value_refuted :
     ~ out_value ps120 rw <= in_value 0 1000 ps120.
 Proof. exact residual_value_refuted. Qed.
 
+(* class 3 StalePendingBorrowingFees: a deposit made while borrowing fees are pending (the
+   model-crate action does not accrue them first; the store's pre_execute does) lowers the
+   pending-fee estimate and with it the value per token *)
+Theorem c06_stale_pending_borrowing_refuted :
+  exists s1 rd td P1,
+    deposit_exec_trace 128 (10 ^ 20) cfg128_w3 state_w3 1 2500787 prices_w3 = Ok (s1, rd, td) /\
+    pool_value 128 (10 ^ 20) cfg128_w3 s1 prices_w3 MaxAfterDeposit true = Ok P1 /\
+    0 < total_supply state_w3 /\ passed state_w3 (clk_borrowing state_w3) = 50000 /\
+    dt_pool_value td = 55097104954108197016 /\ P1 = 55601571219347818588 /\
+    credit_value prices_w3 td = 506157400000000003 /\
+    P1 - dt_pool_value td < credit_value prices_w3 td /\
+    ~ dt_pool_value td * total_supply s1 <= P1 * total_supply state_w3.
+Proof. exact stale_pending_borrowing_refuted. Qed.
+
 (* ---------- non-vacuity ---------- *)
 (* an ordinary round trip with fees on the default market: out < in *)
 Example c06_ex_round_trip :
